@@ -7,7 +7,8 @@ An image is ONE flat byte buffer holding every track buffer, plus the tables tha
 
 | Rust                                                          | Lean                                   |
 |---------------------------------------------------------------|----------------------------------------|
-| `Nib.data[track*trk_cap..(track+1)*trk_cap]` nib.rs:58        | `locate` arm `.nib` (6656-byte tracks) |
+| `Nib.data[track*trk_cap..(track+1)*trk_cap]` nib.rs:58, `trk_cap` = 6656 (NIB) or 6384 (NB2) | `locate` arm `.nib`, field `trkCap` |
+| `Nib::from_bytes` nib.rs:152 (35×6656 or 35×6384 bytes) | `nibFromBytes` |
 | `TMap::create` woz1.rs:131 / woz2.rs:246 (5.25 arm)           | `tmapCreate`                           |
 | `get_trk_idx` woz1.rs:266 / woz2.rs:557 (quarter track search)| `getTrkIdx`                            |
 | `get_trk_ref` woz1.rs:284 / woz2.rs:591                       | `locate` (entry checks)                |
@@ -92,6 +93,8 @@ structure TrackImg where
   ents : List Ent
   /-- WOZ2 `track_bits_offset` in bytes -/
   offset : Nat
+  /-- `Nib.trk_cap`: bytes per track of a NIB (6656) or NB2 (6384) image; unused for WOZ -/
+  trkCap : Nat
   /-- all track buffers: NIB `data`, WOZ1 the `bits` arrays of the TRKS entries one after the other,
   WOZ2 `trks.bits` -/
   bytes : List Nat
@@ -99,6 +102,7 @@ structure TrackImg where
   headPtr : Option Nat
 
 def nibCap : Nat := 6656
+def nb2Cap : Nat := 6384
 def woz1Cap : Nat := 6646
 def woz2Blocks : Nat := 13
 
@@ -122,7 +126,7 @@ def getTrkIdx (m : List Nat) (track : Nat) : IRes Nat :=
 def locate (img : TrackImg) (track : Nat) : IRes (Nat × Nat × Nat) :=
   match img.kind with
   | .nib =>
-    if (track + 1) * nibCap ≤ img.bytes.length then .ok (track * nibCap, nibCap, nibCap * 8) else .panic
+    if (track + 1) * img.trkCap ≤ img.bytes.length then .ok (track * img.trkCap, img.trkCap, img.trkCap * 8) else .panic
   | .woz1 =>
     match getTrkIdx img.tmap track with
     | .ok idx =>
@@ -253,20 +257,34 @@ def wozSync (six : Bool) : Nat := if six then 10 else 9
 def create (kind : ImgKind) (six : Bool) (vol : Nat) : TrackImg :=
   match kind with
   | .nib =>
-    { kind := kind, six := six, tmap := [], ents := [], offset := 0, headPtr := none,
+    { kind := kind, six := six, tmap := [], ents := [], offset := 0, trkCap := nibCap, headPtr := none,
       bytes := ((List.range 35).map fun t => formatBuf σ ⟨six, 8, nibCap⟩ vol t (nibCap * 8)).flatten }
   | .woz1 =>
     let f : Fmt := ⟨six, wozSync six, woz1Cap⟩
-    { kind := kind, six := six, tmap := tmapCreate, offset := 0, headPtr := none,
+    { kind := kind, six := six, tmap := tmapCreate, offset := 0, trkCap := 0, headPtr := none,
       ents := (List.range 35).map fun _ => ⟨0, 0, f.bitCount (secIds six).length⟩,
       bytes := ((List.range 35).map fun t => formatBuf σ f vol t (woz1Cap * 8)).flatten }
   | .woz2 =>
     let f : Fmt := ⟨six, wozSync six, woz2Blocks * 512⟩
-    { kind := kind, six := six, tmap := tmapCreate, offset := 1536, headPtr := none,
+    { kind := kind, six := six, tmap := tmapCreate, offset := 1536, trkCap := 0, headPtr := none,
       ents := ((List.range 35).map fun t => ⟨3 + woz2Blocks * t, woz2Blocks, f.bitCount (secIds six).length⟩) ++
         List.replicate 125 ⟨0, 0, 0⟩,
       bytes := ((List.range 35).map fun t => formatBuf σ f vol t (woz2Blocks * 512 * 8)).flatten }
 
 end ops
+
+/-- `Nib::from_bytes`: 35 tracks of 6656 (NIB) or 6384 (NB2) bytes; anything else is refused.  The disk kind
+the Rust finds by solving track 0 is the parameter `six`. -/
+def nibFromBytes (six : Bool) (bytes : List Nat) : Option TrackImg :=
+  if bytes.length = 35 * nibCap then
+    some { kind := .nib, six := six, tmap := [], ents := [], offset := 0, trkCap := nibCap, bytes := bytes, headPtr := none }
+  else if bytes.length = 35 * nb2Cap then
+    some { kind := .nib, six := six, tmap := [], ents := [], offset := 0, trkCap := nb2Cap, bytes := bytes, headPtr := none }
+  else none
+
+/-- the bytes of an NB2 file made from a NIB file: every 6656-byte track cut to its first 6384 bytes (a
+formatted track occupies at most 6328 of them, the rest is `FF` filler) -/
+def nb2Bytes (bytes : List Nat) : List Nat :=
+  ((List.range 35).map fun t => ((bytes.drop (t * nibCap)).take nibCap).take nb2Cap).flatten
 
 end A2Verif.Model.TrackImg
